@@ -632,6 +632,10 @@ void bloom_filter_alloc<A>::internal_update(uint64_t h0, uint64_t h1) {
     bit_array_ops::set_bit(bit_array_, hash_index);
   }
   is_dirty_ = true;
+  if (memory_ != nullptr) {
+    // keep wrapped memory self-describing: readers treat this marker as "count pending" and recount
+    copy_to_mem(DIRTY_BITS_VALUE, memory_ + NUM_BITS_SET_OFFSET_BYTES);
+  }
 }
 
 // QUERY-AND-UPDATE METHODS
